@@ -38,7 +38,7 @@ type Cfg struct {
 	Name       string            `json:"name"`
 	MinDeposit string            `json:"min_deposit"`     // e.g. "4uband" or "3uband,2uusd"
 	BaseFee    string            `json:"base_packet_fee"` // "" or "1uband"
-	Route      string            `json:"route"`           // tss (no signing group) | ibc (no channel) | tss-ready (group + funded fee payers)
+	Route      string            `json:"route"`           // tss (no signing group) | ibc (no channel) | tss-ready (group + funded fee payers) | tss-funded (no group, funded fee payers, packets due every block)
 	Actors     []string          `json:"actors"`          // A B C
 	Balances   map[string]string `json:"balances"`        // wallet of every actor in the base state
 	Pre        []PreTunnel       `json:"pre_tunnels"`
@@ -292,8 +292,13 @@ func (s *spec) createMsg(creator string, dep coins) *tunneltypes.MsgCreateTunnel
 	return msg
 }
 
+// funded: packets are due every block and the tunnels' fee payers can pay (tss-ready: the send then
+// succeeds; tss-funded: no signing group, so every due packet is created, charged and then fails to be
+// sent inside the end-blocker's branch, which must leave nothing behind).
+func (s *spec) funded() bool { return s.cfg.Route == "tss-ready" || s.cfg.Route == "tss-funded" }
+
 func (s *spec) interval() uint64 {
-	if s.cfg.Route == "tss-ready" {
+	if s.funded() {
 		return 1 // every block (dt = 3 s) is due, so an active tunnel is observably processed each block
 	}
 	return 60
@@ -312,7 +317,7 @@ func (s *spec) Build(w *engine.World) (sdk.Context, engine.Model) {
 	p := k.GetParams(ctx)
 	p.MinDeposit = s.min.sdk()
 	p.BasePacketFee = parseCoins(s.cfg.BaseFee).sdk()
-	if s.cfg.Route == "tss-ready" {
+	if s.funded() {
 		p.MinInterval = 1
 	}
 	mustOK("update params", w.Tx(ctx, 0, tunneltypes.NewMsgUpdateParams(k.GetAuthority(), p)))
@@ -369,7 +374,7 @@ func (s *spec) Build(w *engine.World) (sdk.Context, engine.Model) {
 // afterCreate funds the fee payer of a new tunnel in the tss-ready configuration (environment:
 // a bank send from the genesis FeePayer account through the real MsgSend handler).
 func (s *spec) afterCreate(w *engine.World, ctx sdk.Context, id uint64) {
-	if s.cfg.Route != "tss-ready" {
+	if !s.funded() {
 		return
 	}
 	t, err := w.App.TunnelKeeper.GetTunnel(ctx, id)
@@ -968,6 +973,9 @@ func configs(quick bool) []Cfg {
 		{Name: "2denom-1pre", MinDeposit: "3uband,2uusd", BaseFee: "", Route: "tss", Actors: ab,
 			Balances: map[string]string{"A": "4uband,3uusd", "B": "3uband,2uusd"},
 			Pre:      []PreTunnel{{"A", "min-1"}}, MaxTunnels: 2, MaxBlocks: 1, Depth: 4},
+		{Name: "failing-funded", MinDeposit: "3uband", BaseFee: "1uband", Route: "tss-funded", Actors: ab,
+			Balances: map[string]string{"A": "4uband", "B": "3uband"},
+			Pre:      []PreTunnel{{"A", "min"}}, MaxTunnels: 2, MaxBlocks: 2, Depth: 5},
 		{Name: "delivering", MinDeposit: "3uband", BaseFee: "1uband", Route: "tss-ready", Actors: ab,
 			Balances: map[string]string{"A": "4uband", "B": "3uband"},
 			Pre:      []PreTunnel{{"A", "min"}}, MaxTunnels: 2, MaxBlocks: 2, Depth: 5},
